@@ -345,8 +345,10 @@ func (w *World) Do(inc *Incarnation, opID string, req Request) Response {
 		base = context.WithValue(base, parallelKey, true)
 	}
 	ctx, cancel := context.WithCancel(base)
+	gone := make(chan struct{})
 	w.mu.Lock()
 	w.cancels[opID] = cancel
+	w.gone[opID] = gone
 	w.mu.Unlock()
 	go func() {
 		var body io.ReadCloser
@@ -395,8 +397,12 @@ func (w *World) Do(inc *Incarnation, opID string, req Request) Response {
 	case resp = <-done:
 	case <-inc.crashed:
 		resp = Response{Crashed: true}
+	case <-gone:
+		// the client went away: it never sees the answer; the server side keeps running
+		resp = Response{Aborted: true}
 	}
 	w.mu.Lock()
+	delete(w.gone, opID)
 	if resp.Crashed {
 		// never cancel the context of an abandoned request while the run goes on (DESIGN 3.7)
 		w.deadCancels = append(w.deadCancels, cancel)
